@@ -1,7 +1,7 @@
 (* C05 — each mutation has exactly its documented effect; failed calls change nothing.
    Refines cw rw: forgetting the redundant fields of the new world gives the reference document's new state, and the
    return values are equal.  The reference document (Spec/RefDoc.v) is a plain list-of-blocks tree. *)
-From AHP Require Import Model.Base Model.Str Model.Attr Model.Dom Spec.RefDoc Proofs.DomProofs Proofs.RefDocProofs.
+From AHP Require Import Model.Base Model.Str Model.Attr Model.Dom Spec.RefDoc Proofs.DomProofs Proofs.RefDocProofs Proofs.RemoveProofs.
 
 Theorem C05_appendText : forall w t s, Refines (appendText w t s) (r_appendText (absw w) t s).
 Proof. exact appendText_refines. Qed.
@@ -25,6 +25,10 @@ Theorem C05_removeBlock : forall w t b, WFw w -> Refines (removeBlock w t b) (r_
 Proof. exact removeBlock_refines. Qed.
 Theorem C05_removeBlocks : forall t bs w acc, WFw w -> Refines (removeBlocks w t bs acc) (r_removeBlocks (absw w) t bs acc).
 Proof. exact removeBlocks_refines. Qed.
+(* remove(): the element is taken out of the element that has it among its blocks - which is the one its parentNode link names,
+   in every well-formed world with unique uids (the reference document has no parent links and searches structurally) *)
+Theorem C05_remove : forall w c, WFw w -> NoDup (world_uids w) -> Refines (remove_ w c) (r_remove (absw w) c).
+Proof. exact remove_refines. Qed.
 (* failed calls leave the whole world as it was *)
 Theorem C05_atomic_bad_reference : forall after w t child r h bs,
   wfind t w = Some (Tag h bs) -> index_of r bs = None -> insert_rel after w t child (Some r) = (w, RValueError).
